@@ -306,6 +306,21 @@ def run(ck: Check) -> None:
                 pjobs.append((label, ep, "symlink-dotdot", ["verify-metadata", os.path.join(lnk, "..", "t.json"), os.path.join(lnk, "..", "u.json")], os.path.join(base, "here"), want))
                 pjobs.append((label, ep, "symlink-dotdot-relative", ["verify-metadata", "link/../t.json", "link/../u.json"], os.path.join(base, "here"), want))
                 pjobs.append((label, ep, "respelled", ["verify-metadata", ".//sub/..//t.json", "sub/./../u.json"], os.path.join(base, "elsewhere" if False else "here"), not want))
+        # names beginning with characters that option parsers give a meaning to ('@' response files, '+'), taken literally; next to each sits a bystander
+        # without the prefix that lists the names of the pair with the opposite verdict, one per line — what a response-file reading would pick up
+        for label, named, decoy, want in (("named-rejected", bad, good, False), ("named-accepted", good, bad, True)):
+            base = os.path.join(d, "prefix-" + label)
+            os.makedirs(base, exist_ok=True)
+            for pre in ("@", "+", "@@"):
+                for nm, b in (("t.json", named[1]), ("u.json", named[2])):
+                    open(os.path.join(base, pre + nm), "wb").write(b)
+            for nm, b in (("decoy-t.json", decoy[1]), ("decoy-u.json", decoy[2])):
+                open(os.path.join(base, nm), "wb").write(b)
+            open(os.path.join(base, "t.json"), "w").write("decoy-t.json\n")
+            open(os.path.join(base, "u.json"), "w").write("decoy-u.json\n")
+            for ep in ENTRY_POINTS:
+                for pre in ("@", "+", "@@"):
+                    pjobs.append((label, ep, "prefix-" + pre, ["verify-metadata", pre + "t.json", pre + "u.json"], base, want))
         with ThreadPoolExecutor(max_workers=16) as ex:
             pouts = list(ex.map(lambda j: run_ep(j[1], script, j[3], j[4]), pjobs))
         for (label, ep, spelling, args, cwd_, want), (rc, out, err) in zip(pjobs, pouts):
